@@ -575,11 +575,18 @@ impl Compiler {
             result: result_reg,
         });
 
+        // Each iteration has its own scope: a `let`/`const` loop variable is a fresh binding
+        // per iteration, so closures created in the body keep that iteration's value
+        // (break/continue unwind to the loop context's depth, which excludes this scope)
+        self.emit_push_scope();
+
         // Bind to left side
         self.compile_for_in_of_left(&for_in.left, value_reg)?;
 
         // Compile body
         self.compile_statement_impl(&for_in.body)?;
+
+        self.emit_pop_scope();
 
         // Jump back to start
         self.builder.emit_jump_to(loop_start);
@@ -673,6 +680,11 @@ impl Compiler {
             });
         }
 
+        // Each iteration has its own scope: a `let`/`const` loop variable is a fresh binding
+        // per iteration, so closures created in the body keep that iteration's value
+        // (break/continue unwind to the loop context's depth, which excludes this scope)
+        self.emit_push_scope();
+
         // Bind to left side
         self.compile_for_in_of_left(&for_of.left, value_reg)?;
 
@@ -688,6 +700,8 @@ impl Compiler {
 
         // Pop iterator try handler (normal completion, no exception)
         self.builder.emit(Op::PopIterTry);
+
+        self.emit_pop_scope();
 
         // Jump back to start
         self.builder.emit_jump_to(loop_start);
